@@ -154,6 +154,7 @@ class MultiPaxosNode(Entity):
         """Send Prepare to establish leadership."""
         max_seen = self._current_ballot.number
         self._current_ballot = Ballot(max_seen + 1, self.name)
+        self._is_leader = False  # not leader under the new ballot until Phase 1 completes
         ballot = self._current_ballot
         self._phase1_responses[ballot.number] = []
 
@@ -250,6 +251,8 @@ class MultiPaxosNode(Entity):
 
         if ballot_number not in self._phase1_responses:
             return []
+        if self._current_ballot != Ballot(ballot_number, self.name):
+            return []  # promise for a ballot we abandoned (we adopted a higher one since)
 
         self._phase1_responses[ballot_number].append(
             {
@@ -312,6 +315,8 @@ class MultiPaxosNode(Entity):
 
         self._current_ballot = ballot
         self._leader = ballot.node_id
+        if ballot.node_id != self.name:
+            self._is_leader = False
 
         # Append to log (truncate conflicting entries)
         if slot > self._log.last_index:
